@@ -790,7 +790,8 @@ func ruleR14(c *Ctx) {
 					c.r.ok("R14", key, c.m.pos(l.Pos()), "written by a mutator that is neither Insert nor Delete nor reachable from a query (outside the histories the property quantifies over)", "C06")
 				case tok != token.INC && tok != token.DEC:
 					c.r.bad("R14", key, c.m.pos(l.Pos()), "the size counter is changed by something other than ++/--", "C06")
-				case tok == token.INC && !strings.HasSuffix(base, ".Insert"), tok == token.DEC && !strings.HasSuffix(base, ".Delete"):
+				case tok == token.INC && !strings.HasSuffix(base, ".Insert") && !c.onlyReachedFrom(u, rt.Obj().Name()+".Insert", rt.Obj().Name()+".Delete"),
+					tok == token.DEC && !strings.HasSuffix(base, ".Delete") && !c.onlyReachedFrom(u, rt.Obj().Name()+".Delete", rt.Obj().Name()+".Insert"):
 					c.r.bad("R14", key, c.m.pos(l.Pos()), "increment outside Insert or decrement outside Delete", "C06")
 				default:
 					c.r.ok("R14", key, c.m.pos(l.Pos()), "counter changed by one inside its owner", "C06")
@@ -800,4 +801,16 @@ func ruleR14(c *Ctx) {
 		})
 	}
 	c.r.floor("R14", 20, "counter writers", "C06")
+}
+
+
+// onlyReachedFrom: u is a helper of the method called want – reachable from it and not from the
+// method called other (a helper Delete hands its work to may decrement the counter; one that
+// Insert also reaches may not).
+func (c *Ctx) onlyReachedFrom(u *FuncUnit, want, other string) bool {
+	wu, ou := c.m.ByName[want], c.m.ByName[other]
+	if wu == nil || !c.reachableFrom([]*FuncUnit{wu})[u] {
+		return false
+	}
+	return ou == nil || !c.reachableFrom([]*FuncUnit{ou})[u]
 }
